@@ -106,7 +106,18 @@ func (s *session) do(idx int, op opRec, made map[string]bool) opResult {
 	var r opResult
 	switch op.K {
 	case "ping":
+		if op.V == "stall" {
+			// the container does not run for longer than Ping's bound, then goes on and answers
+			syscall.Kill(s.initPid, syscall.SIGSTOP)
+			for i := 0; i < 400 && !allThreadsStopped(s.initPid); i++ {
+				time.Sleep(5 * time.Millisecond)
+			}
+		}
 		r = withTimeout(func() opResult { return errRes(s.env.Ping()) })
+		if op.V == "stall" {
+			syscall.Kill(s.initPid, syscall.SIGCONT)
+			time.Sleep(100 * time.Millisecond) // let the late pong get onto the wire
+		}
 	case "reset":
 		r = withTimeout(func() opResult { return errRes(s.env.Reset()) })
 	case "delete":
